@@ -663,4 +663,248 @@ theorem rtw_keptM (env : Env) (b : Bucket) (hb : BucketWF b) (we renew cancel : 
               · rename_i e2; rw [e2] at hr; exact k1.trans (hr g f' hw hl h2)
               · rename_i e2; rw [e2] at hr; exact k1.trans (hr g f' hw hl h2)
 
+/-! ### second proof round: unnamed shares, requests that return on the unrepaired server, lease counts -/
+
+/-- the shares handed to the lease phase are shares the request names -/
+theorem evalWrites_rem_subset (nodeid we : Bytes) (tw : List (Nat × TW)) :
+    ∀ (b : Bucket) (rem : List Nat) (k : Nat), k ∈ (evalWrites nodeid we b tw rem).2.1 → k ∈ rem ∨ k ∈ tw.map (·.1) := by
+  induction tw with
+  | nil => intro b rem k hk; simp only [evalWrites, List.mem_reverse] at hk; exact Or.inl hk
+  | cons p rest ih =>
+    intro b rem k hk
+    obtain ⟨m, t⟩ := p
+    simp only [evalWrites] at hk
+    simp only [List.map_cons, List.mem_cons]
+    split at hk
+    · rcases ih _ _ k hk with h | h
+      · exact Or.inl h
+      · exact Or.inr (Or.inr h)
+    · generalize writev (targetFile nodeid we b m) t.datav t.newLength = r at hk
+      obtain ⟨f1, e⟩ := r
+      cases e with
+      | none =>
+        simp only at hk
+        rcases ih _ _ k hk with h | h
+        · rcases List.mem_cons.mp h with h | h
+          · exact Or.inr (Or.inl h)
+          · exact Or.inl h
+        · exact Or.inr (Or.inr h)
+      | some e => simp only [List.mem_reverse] at hk; exact Or.inl hk
+
+/-- the lease phase touches only the shares it is given -/
+theorem renewShares_untouched (env : Env) (li : Lease) (ns : List Nat) :
+    ∀ (b : Bucket) (n : Nat), n ∉ ns → lookup (renewShares env li b ns).1 n = lookup b n := by
+  induction ns with
+  | nil => intro b n _; rfl
+  | cons k rest ih =>
+    intro b n hn
+    simp only [List.mem_cons, not_or] at hn
+    simp only [renewShares]
+    cases hl : lookup b k with
+    | none => exact ih b n hn.2
+    | some g =>
+      simp only
+      generalize addOrRenew env.h g env.avail li = r
+      obtain ⟨g', e⟩ := r
+      cases e with
+      | none => simp only; rw [ih _ n hn.2, lookup_store_ne b k n g' hn.1]
+      | some e => simp only; exact lookup_store_ne b k n g' hn.1
+
+/-- a share the request does not name is byte-for-byte untouched by the WHOLE request — test, write and lease
+    phases — whatever its outcome, repaired or unrepaired server -/
+theorem rtw_untouched (env : Env) (b : Bucket) (we renew cancel : Bytes) (tw : List (Nat × TW))
+    (rv : List (Nat × Nat)) (rl : Bool) (n : Nat) (hn : n ∉ tw.map (·.1)) :
+    lookup (rtw env b we renew cancel tw rv rl).bucket n = lookup b n := by
+  unfold rtw
+  split
+  · rfl
+  · simp only
+    split
+    · rfl
+    · split
+      · rfl
+      · have hu := evalWrites_untouched env.nodeid we tw b [] n hn
+        have hs := evalWrites_rem_subset env.nodeid we tw b []
+        split
+        · rename_i e; rw [e] at hu; exact hu
+        · rename_i b1 rem e
+          rw [e] at hu hs
+          have hrem : n ∉ rem := by
+            intro h
+            rcases hs n h with h' | h'
+            · simp at h'
+            · exact hn h'
+          split
+          · exact hu
+          · have hr := renewShares_untouched env (makeLease env renew cancel) rem b1 n hrem
+            split
+            · rename_i e2; rw [e2] at hr; exact hr.trans hu
+            · rename_i e2; rw [e2] at hr; exact hr.trans hu
+
+/-- a `writev` loop that did not raise had only admissible vectors -/
+theorem writeAll_none_fits (dv : List (Nat × Bytes)) :
+    ∀ f : File, WF f → (writeAll f dv).2 = none → FitsAll dv := by
+  induction dv with
+  | nil => intro f _ _ p hp; simp at hp
+  | cons q rest ih =>
+    intro f hwf hnone
+    obtain ⟨o, d⟩ := q
+    by_cases h : o + d.length ≤ MAX_SIZE
+    · obtain ⟨f1, e1, w⟩ := wsd_ok f hwf o d h
+      simp only [writeAll, e1] at hnone
+      have hr := ih f1 w.wf hnone
+      intro p hp
+      rcases List.mem_cons.mp hp with hp | hp
+      · subst hp; exact h
+      · exact hr p hp
+    · have e := wsd_err f hwf o d (by omega)
+      simp only [writeAll, e] at hnone
+      simp at hnone
+
+theorem writev_none_fits (f : File) (hwf : WF f) (dv : List (Nat × Bytes)) (nl : Option Nat)
+    (h : (writev f dv nl).2 = none) : FitsAll dv := by
+  apply writeAll_none_fits dv f hwf
+  unfold writev at h
+  generalize writeAll f dv = r at *
+  obtain ⟨f1, e⟩ := r
+  cases e with
+  | none => rfl
+  | some e => simp at h
+
+/-- a write phase that did not raise applied only admissible vectors -/
+theorem evalWrites_none_fits (nodeid we : Bytes) (tw : List (Nat × TW)) :
+    ∀ (b : Bucket) (rem : List Nat), BucketWF b → (evalWrites nodeid we b tw rem).2.2 = none → TwFits tw := by
+  induction tw with
+  | nil => intro b rem _ _ p hp; simp at hp
+  | cons q rest ih =>
+    intro b rem hb hnone
+    obtain ⟨m, t⟩ := q
+    simp only [evalWrites] at hnone
+    split at hnone
+    · rename_i h0
+      have hr := ih _ _ (hb.erase m) hnone
+      intro p hp hne
+      rcases List.mem_cons.mp hp with hp | hp
+      · subst hp; simp only [beq_iff_eq] at h0; exact absurd h0 hne
+      · exact hr p hp hne
+    · have hwf := targetFile_wf hb nodeid we m
+      have hfit := writev_none_fits _ hwf t.datav t.newLength
+      have hw := writev_any _ hwf t.datav t.newLength
+      generalize writev (targetFile nodeid we b m) t.datav t.newLength = r at *
+      obtain ⟨f1, e⟩ := r
+      cases e with
+      | some e => simp at hnone
+      | none =>
+        simp only at hnone
+        have hr := ih _ _ (hb.store m hw.1) hnone
+        intro p hp hne
+        rcases List.mem_cons.mp hp with hp | hp
+        · subst hp; exact hfit rfl
+        · exact hr p hp hne
+
+/-! ### lease counts under `renew_lease` and `allocate_buckets` -/
+
+/-- same share numbers in the same order, every pair of files related by `R` -/
+inductive BucketRel (R : File → File → Prop) : Bucket → Bucket → Prop where
+  | nil : BucketRel R [] []
+  | cons {p q : Nat × File} {t t' : Bucket} (h : p.1 = q.1 ∧ R p.2 q.2) (r : BucketRel R t t') :
+      BucketRel R (p :: t) (q :: t')
+
+theorem BucketRel.refl {R : File → File → Prop} (hR : ∀ f, R f f) (b : Bucket) : BucketRel R b b := by
+  induction b with
+  | nil => exact BucketRel.nil
+  | cons p t ih => exact BucketRel.cons ⟨rfl, hR _⟩ ih
+
+theorem BucketRel.lookup {R : File → File → Prop} {b b' : Bucket} (h : BucketRel R b b') (n : Nat) (f : File)
+    (hl : lookup b n = some f) : ∃ f', lookup b' n = some f' ∧ R f f' := by
+  unfold Slot.lookup at hl ⊢
+  induction h with
+  | nil => simp at hl
+  | @cons p q t t' hpq _ ih =>
+    simp only [List.find?_cons] at hl ⊢
+    by_cases hp : (p.1 == n) = true
+    · have hq : (q.1 == n) = true := by rw [← hpq.1]; exact hp
+      simp only [hp, Option.map_some, Option.some.injEq] at hl
+      simp only [hq, Option.map_some, Option.some.injEq]
+      subst hl
+      exact ⟨q.2, rfl, hpq.2⟩
+    · have hq : ¬ (q.1 == n) = true := by rw [← hpq.1]; exact hp
+      simp only [hp] at hl
+      simp only [hq]
+      exact ih hl
+
+theorem renewAll_rel (R : File → File → Prop) (hR : ∀ f, R f f) (env : Env) (secret : Bytes) (tm : Nat)
+    (hstep : ∀ f, ShareWF f → R f (shareRenew env f secret tm).1) (b : Bucket) (hb : MixedWF b) :
+    BucketRel R b (renewAll env secret tm b).1 := by
+  induction b with
+  | nil => exact BucketRel.nil
+  | cons p t ih =>
+    obtain ⟨n, f⟩ := p
+    have hk := hstep f (hb (n, f) (List.mem_cons_self ..))
+    have iht := ih (fun q hq => hb q (List.mem_cons_of_mem _ hq))
+    simp only [renewAll]
+    generalize shareRenew env f secret tm = r at *
+    obtain ⟨f', e⟩ := r
+    cases e with
+    | none => exact BucketRel.cons ⟨rfl, hk⟩ iht
+    | some e => exact BucketRel.cons ⟨rfl, hk⟩ (BucketRel.refl hR t)
+
+/-- the number of leases `get_leases` lists is the same -/
+def SameCount (f f' : File) : Prop := (leasesOf f').length = (leasesOf f).length
+
+theorem mut_renew_len (h : Bytes → Bytes) (f : File) (hwf : Mutable.WF f) (secret : Bytes) (t : Nat) (ht : t < 2 ^ 32) :
+    (Mutable.getLeases (Mutable.renewLease h f secret t).1).length = (Mutable.getLeases f).length := by
+  unfold Mutable.renewLease
+  split
+  · rfl
+  · split
+    · rfl
+    · rename_i s _ i l hfind
+      have hmem := (Mutable.findRenew_some hfind).1
+      obtain ⟨ho, ho', he, hr, hc, hn⟩ := listed_lease f hwf i l hmem
+      split
+      · simp only
+        unfold Mutable.getLeases
+        rw [enumerateLeases_write f hwf i l { l with expire := t } hmem _ (length_serMut _)
+          (by unfold decodeRec; rw [parseMut_serMut { l with expire := t } ho' ht hr hc hn]; simp [ho])]
+        simp
+      · rfl
+
+/-- `renew_lease` on a share file of either kind never changes the number of its leases -/
+theorem shareRenew_count (env : Env) (secret : Bytes) (t : Nat) (ht : t < 2 ^ 32) (f : File) (hwf : ShareWF f) :
+    SameCount f (shareRenew env f secret t).1 := by
+  unfold ShareWF at hwf
+  unfold SameCount shareRenew
+  cases hk : kindOf f with
+  | mutable =>
+    rw [hk] at hwf
+    simp only
+    have hs := (renewLease_spec env.h f hwf secret t).schema
+    have hk' : kindOf (Mutable.renewLease env.h f secret t).1 = .mutable :=
+      kindOf_mutable (by rw [hs]; exact kindOf_mutable_iff.mp hk)
+    rw [leasesOf_mutable hk', leasesOf_mutable hk]
+    exact mut_renew_len env.h f hwf secret t ht
+  | immutable =>
+    rw [hk] at hwf
+    simp only
+    obtain ⟨hs, hw, hn⟩ := imm_renew_schema env.h f hwf.1 secret t
+    have hk' : kindOf (ImmL.renewLease env.h f secret t).1 = .immutable :=
+      kindOf_immutable (by rw [hs]; exact kindOf_immutable_iff.mp hk)
+    rw [leasesOf_immutable hk', leasesOf_immutable hk, ImmL.length_getLeases hw, ImmL.length_getLeases hwf.1, hn]
+  | other => rfl
+
+/-- the bucket and the error of `allocate_buckets` are those of putting its lease on the shares already held -/
+theorem allocate_eq (env : Env) (b : Bucket) (inc : Incoming) (n size : Nat) (renew cancel : Bytes) :
+    (allocate env b inc n size renew cancel).1 = (addLeaseAll env
+      { owner := 0, expire := env.now + renewalTime, renew := renew, cancel := cancel, nodeid := env.nodeid } b).1 ∧
+    (allocate env b inc n size renew cancel).2.2.2 = (addLeaseAll env
+      { owner := 0, expire := env.now + renewalTime, renew := renew, cancel := cancel, nodeid := env.nodeid } b).2 := by
+  simp only [allocate]
+  split
+  · rename_i e; rw [e]; exact ⟨rfl, rfl⟩
+  · rename_i e; rw [e]
+    split
+    · exact ⟨rfl, rfl⟩
+    · split <;> exact ⟨rfl, rfl⟩
+
 end Tahoe.Storage.Slot
